@@ -25,6 +25,7 @@ from cirbo.core.circuit import (
     RNOT,
     XOR,
 )
+from cirbo.core.circuit.exceptions import CircuitIsCyclicalError
 from cirbo.sat.cnf.cnf import Cnf, CnfRaw, Lit
 
 
@@ -77,15 +78,28 @@ def tseytin_transformation(
     }
 
     def process_gate(label: str) -> Lit:
-        if label in saved_lits:
-            return saved_lits[label]
-        gate = circuit.get_gate(label)
-        operands = gate.operands
-        lits = [process_gate(lit) for lit in operands]
-        gate_type = gate.gate_type
-        top_lit = get_lit(label)
-        _operations[gate_type](cnf, top_lit, lits)
-        return top_lit
+        # iterative post-order walk (same visiting order as the recursive
+        # formulation), so that deep circuits do not hit the recursion limit
+        stack: list[tuple[str, bool]] = [(label, False)]
+        entered: set[str] = set()
+        while stack:
+            current, expanded = stack.pop()
+            if current in saved_lits:
+                continue
+            gate = circuit.get_gate(current)
+            if not expanded:
+                if current in entered:
+                    raise CircuitIsCyclicalError()
+                entered.add(current)
+                stack.append((current, True))
+                for operand in reversed(gate.operands):
+                    if operand not in saved_lits:
+                        stack.append((operand, False))
+                continue
+            lits = [saved_lits[operand] for operand in gate.operands]
+            top_lit = get_lit(current)
+            _operations[gate.gate_type](cnf, top_lit, lits)
+        return saved_lits[label]
 
     for output_index in outputs:
         output_lit = process_gate(circuit.output_at_index(output_index))
